@@ -46,7 +46,8 @@ class C14(H.Check):
         return {'projects': '%s source files, each with a struct, an enum and two commands; 0, 2 or 3 custom type mappings; both validation modes; visualizeDeps on/off; '
                             'in the symbolic-names scenarios (%s files) the struct and one command of every file carry symbolic 3-character names, so every relative order '
                             'of the names (and with it every sorted position) is covered' % ('1..3' if tier != 'thorough' else '1..6', '1..2' if tier != 'thorough' else '1..3'),
-                'orders': 'run 1 iterates every unordered container in insertion order, run 2 in reverse; inside GenerationCache::{new,hash_*} every permutation is explored for each run independently',
+                'orders': 'run 1 iterates every hash container in insertion order, run 2 in reverse; inside GenerationCache::hash_config every permutation is explored for each run independently; '
+                          'directory listings keep one order across the runs of a history',
                 'histories': 'run, run (and a third run in the thorough tier) on CLI and build-script path',
                 'force matrix': '--force in {absent, present} x configuration force in {absent, true, false} x cache state in {absent, matching, mismatching, corrupt} on the CLI; '
                                 'configuration force x cache state on the build script'}
@@ -56,7 +57,8 @@ class C14(H.Check):
                 'more than 6 source files']
 
     def assumptions(self):
-        return ['"fresh process" == different iteration order of every HashMap/HashSet and directory listing; nothing else differs between processes',
+        return ['"fresh process" == different iteration order of every HashMap/HashSet; a directory lists its entries in the same order in both runs (both orders are explored in the '
+                'duplicate-type scenarios); the clock advances; nothing else differs between processes',
                 'an unchanged output directory == an empty effect log for the run (no create/overwrite/remove/mkdir at all, even with identical bytes)']
 
     def scenarios(self, tier):
@@ -88,6 +90,8 @@ class C14(H.Check):
             e.order_mode = 'scoped'
             e.order_all_in = HASH_SCOPE
             e.order_fallback = 'insertion'
+            # a directory enumerates the same way in every process (either way round); only hash containers differ between processes
+            e.order_dirs = ('insertion', 'reverse')[e.choose(2)] if p.get('dup') else 'insertion'
             path = p['path']
             if kind == 'rerun':
                 symbolic = p.get('sym', False)
